@@ -81,3 +81,6 @@ UCB_MAPS = ['arm_to_sum', 'arm_to_count', 'arm_to_mean', 'arm_to_expectation']
 arm_change_contracts('_UCB1', UCB_MAPS,
                      'val(self.arm_to_sum, arm) == 0 and val(self.arm_to_count, arm) == 0 and '
                      'val(self.arm_to_mean, arm) == 0 and val(self.arm_to_expectation, arm) == 0')
+
+from specs.base_mab import warm_start_contracts
+warm_start_contracts('ucb', '_UCB1', UCB_MAPS)
